@@ -1,4 +1,5 @@
 import RockitModel.Model.Initial
+import RockitModel.Model.Der
 /-!
 Line-protocol driver: reads an OCP description, a decision point and `run …` requests from
 stdin, evaluates the model over `Rat`, prints canonical answers.
@@ -104,6 +105,8 @@ structure B where
   Pc : Array (Array Rat) := #[]
   Pcp : Array (Array Rat) := #[]
   gs : Guesses Rat := {}
+  /-- a standalone evaluation environment (`e <kind> values…` lines) -/
+  env : Env Rat := { t := 0, T := 0, t0 := 0, DT := 0, DTc := 0 }
 
 def setAt {β : Type} (a : Array β) (i : Nat) (v : β) (dflt : β) : Array β :=
   let a := if a.size ≤ i then a ++ Array.replicate (i + 1 - a.size) dflt else a
@@ -176,6 +179,15 @@ def runCmd (b : B) (what : List String) : Except String (List String) := do
       let e ← parseExprAll e
       let t ← parseRats [t]
       return ["s " ++ showRat t[0]! ++ " " ++ showRat (c.samplerAt e t[0]!), "end"]
+  | "der" :: j :: e =>
+      let e ← parseExprAll e
+      match c.o.derIter e j.toNat! with
+      | .error _ => return ["reject", "end"]
+      | .ok d =>
+          return ["v " ++ showRat (d.eval b.env), "end"]
+  | "eval" :: e =>
+      let e ← parseExprAll e
+      return ["v " ++ showRat (e.eval b.env), "end"]
   | _ => throw s!"unknown run {what}"
 
 def stepLine (b : B) (line : String) : Except String (B × List String) := do
@@ -259,6 +271,18 @@ def stepLine (b : B) (line : String) : Except String (B × List String) := do
   | "P" :: r => return ({ b with P := (← parseRats r) }, [])
   | "Pc" :: k :: r => return ({ b with Pc := setAt b.Pc k.toNat! (← parseRats r) #[] }, [])
   | "Pcp" :: k :: r => return ({ b with Pcp := setAt b.Pcp k.toNat! (← parseRats r) #[] }, [])
+  | "e" :: kind :: r =>
+      let v ← parseRats r
+      let en := b.env
+      let en ← (match kind with
+        | "x" => pure { en with x := v } | "u" => pure { en with u := v } | "z" => pure { en with z := v }
+        | "xq" => pure { en with xq := v } | "p" => pure { en with p := v } | "pc" => pure { en with pc := v }
+        | "pcp" => pure { en with pcp := v } | "v" => pure { en with v := v } | "vc" => pure { en with vc := v }
+        | "vcp" => pure { en with vcp := v } | "vs" => pure { en with vs := v }
+        | "t" => pure { en with t := v[0]! } | "T" => pure { en with T := v[0]! } | "t0" => pure { en with t0 := v[0]! }
+        | "DT" => pure { en with DT := v[0]! } | "DTc" => pure { en with DTc := v[0]! }
+        | _ => throw "bad env kind")
+      return ({ b with env := en }, [])
   | "g" :: kind :: i :: form :: rest =>
       let i := i.toNat!
       let g : Guess Rat ← (match form with
